@@ -65,6 +65,18 @@ class Harness(cm.BaseB):
             arg = np.array(nested)
         ref = flat_f(nested)
         valid = isinstance(n, int) and not isinstance(n, bool) and n >= 0
+        if valid and kind in ("list", "array1d") and L > 1:
+            # the same object was already used for an earlier call with another n
+            import copy
+
+            before = copy.deepcopy(arg)
+            try:
+                rt.get_trough_wells((n + L // 2 + 1) % (2 * L + 1), arg)
+            except Exception:
+                pass
+            same = (list(arg) == list(before)) and len(arg) == len(before)
+            if not same:
+                return "input-mutated", None, [("C19/caller-collection-modified", f"{kind} of {L} wells is {list(arg)[:8]}... after a call")]
         try:
             r = rt.get_trough_wells(n, arg)
         except Exception as e:
